@@ -22,6 +22,7 @@ RULE += ' Round 6: the 16-bit-addressed and address-size-prefixed instances of C
 RULE += ' Round 7: 16-bit code-segment twins: the register-only rows decoded for that configuration must report the read and write sets of their 32-bit decoding.'
 RULE += ' Round 8: the segment pushes and repeated-prefix rows of C04; the 16-bit code-segment twins include memory-operand rows and compare the reported memory cells (addresses evaluated on a state whose upper register halves are set).'
 RULE += ' Round 9: far returns, the selector perturbed to the 64-bit user code selector (the step succeeds and cs, reported by the tracer, differs).'
+RULE += ' Round 10: the reported sets are asked the way an analysis does: get_r() without memory first, then get_r(mem_read=True) on the same lifted objects.'
 ASSUMPTIONS = ['the host CPU under ptrace single-step is the reference; faulting steps are excluded', 'only architecturally defined outputs witness a read dependency (undefined flags are ignored as outputs); '
                'every flag the CPU changes counts as written', 'x87 registers hold finite normal values with all exceptions masked (the default control word); TOP is 0 initially; a register tagged empty after the step is not an output']
 
@@ -126,6 +127,14 @@ def reported_sets(ins, regs, flags, hot, hb=None):
                     wmem.append((irsem.evaluate(x.arg, env) & 0xffffffff, x.size // 8))
                 except (irsem.Undefined, irsem.Uninterpreted, irsem.IllFormed):
                     wmem.append((0, 1 << 32))
+    # a client that first asks for the plain read sets (registers only) and then for the sets including the memory cells and
+    # the registers of their addresses, on the same lifted objects: the second answer must not depend on the first question
+    for a in affs:
+        try:
+            a.get_r()
+            a.src.get_r()
+        except Exception:
+            pass
     for a in affs:
         for x in a.get_r(mem_read=True):
             if irsem.kind(x) == 'ExprId':
